@@ -1,3 +1,5 @@
+import math
+
 import torch
 from torch.utils.data import DistributedSampler as TorchDistributedSampler
 
